@@ -172,6 +172,19 @@ def run(ctx, which):
     skel_now = {f: skeleton(node) for f, node in n.funcs.items()}
     restructured = {f for f in skel_now if f in skeletons and skeletons[f] != skel_now[f]}
     not_binding = []  # (table, function, open obligations): invariants fail on a restructured body and nothing replays
+    # alternative sidecars: the invariants of another statement skeleton of the same kernel (same requires / ensures)
+    alt_used = {}
+    for fname, alts in getattr(K, "ALTERNATIVES", {}).items():
+        for alt in alts:
+            want = skeletons.get(alt["skeleton"]) if alt["skeleton"].startswith("@") else alt["skeleton"]
+            if fname in skel_now and want == skel_now[fname]:
+                alt_used[fname] = alt
+                restructured.discard(fname)
+    def contract_for(tname, fname, contract):
+        alt = alt_used.get(fname)
+        if alt is not None and tname in alt:
+            return dict(contract, loops=alt[tname])
+        return contract
     new_baseline = {}
     all_results = []
     per_function = {}
@@ -185,6 +198,7 @@ def run(ctx, which):
                     raise kexec.Unsupported("set_operations.pyx is outside the normaliser's subset (%s)" % norm_failed)
                 if fname not in n.funcs:
                     raise kexec.Unsupported("function %s not found in set_operations.pyx" % fname)
+                contract = contract_for(tname, fname, contract)
                 if fname == MANY:
                     ex = manyexec.ManyExec(n, fname, contract)
                 else:
